@@ -167,10 +167,19 @@ InitialLength(bs, le) ==
                   len |-> W(IF le THEN Slice(bs, 5, 8) ELSE Rev(Slice(bs, 5, 8)))]
        ELSE IF f[4] = 255 /\ f[3] = 255 /\ f[2] = 255 /\ f[1] >= 240
        THEN [ok |-> FALSE, why |-> "reserved", used |-> 0, is64 |-> FALSE, len |-> W(<<>>)]
-       \* 0xffffff00..0xffffffef: reserved by DWARF 2-4 (7.4), an ordinary 32-bit length in DWARF 5.
-       \* The reader cannot know the version yet, so either answer is a correct one: "v5only".
+       \* 0xffffff00..0xffffffef: reserved by DWARF 2-4 (7.4), an ordinary 32-bit length in DWARF 5: "v5only".
+       \* What a decoder must do depends on the version it is configured for - see InitialLengthFor.
        ELSE IF f[4] = 255 /\ f[3] = 255 /\ f[2] = 255
        THEN [ok |-> TRUE, why |-> "v5only", used |-> 4, is64 |-> FALSE, len |-> W(f)]
        ELSE [ok |-> TRUE, why |-> "", used |-> 4, is64 |-> FALSE, len |-> W(f)]
+
+\* The same for a decoder configured for DWARF version `ver` (the library's struct sets carry one, default 2):
+\* versions 2-4 reject the "v5only" words as reserved escapes; for version 5 the word is a valid length, and because a reader
+\* meets the field before it can know the version, either answer is accepted there (both = TRUE).
+InitialLengthFor(bs, le, ver) ==
+  LET r == InitialLength(bs, le) IN
+  IF r.why = "v5only" /\ ver <= 4
+  THEN [ok |-> FALSE, why |-> "reserved", used |-> 0, is64 |-> FALSE, len |-> W(<<>>), both |-> FALSE]
+  ELSE [ok |-> r.ok, why |-> r.why, used |-> r.used, is64 |-> r.is64, len |-> r.len, both |-> r.why = "v5only"]
 
 =============================================================================
